@@ -43,25 +43,25 @@ type flight struct {
 	abs      J // abstract form for the trace
 }
 type netSim struct {
-	w       *World
-	rng     *rand.Rand
-	nodes   map[int]*netNode // correct validators by index
-	byz     []int            // Byzantine validator indices (played by the driver)
-	q       []flight
-	names   map[uint64]map[common.Hash]string // height -> block hash -> name
-	pnames  map[common.Hash]string            // part-set header hash -> name
-	ids     map[string]types.BlockID          // name -> block id
-	parts   map[string][]*types.Part          // name -> parts (for Byzantine blocks)
-	counter map[uint64]int
-	trace   []J
-	order   []int // node number (1..len(nodes)) in the trace -> validator index
-	nodeNo  map[int]int
-	steps   int
-	abort   string
-	byzSent map[string]bool
-	maj23   bool // gossip of majority claims (VoteSetMaj23 / VoteSetBits) enabled
-	cut     int  // trace length when the first majority claim was delivered (-1: none); the trace is validated up to here
-	claimed map[string]bool
+	w        *World
+	rng      *rand.Rand
+	nodes    map[int]*netNode // correct validators by index
+	byz      []int            // Byzantine validator indices (played by the driver)
+	q        []flight
+	names    map[uint64]map[common.Hash]string // height -> block hash -> name
+	pnames   map[common.Hash]string            // part-set header hash -> name
+	ids      map[string]types.BlockID          // name -> block id
+	parts    map[string][]*types.Part          // name -> parts (for Byzantine blocks)
+	counter  map[uint64]int
+	trace    []J
+	order    []int // node number (1..len(nodes)) in the trace -> validator index
+	nodeNo   map[int]int
+	steps    int
+	abort    string
+	byzSent  map[string]bool
+	maj23    bool // gossip of majority claims (VoteSetMaj23 / VoteSetBits) enabled
+	cut      int  // trace length when the first majority claim was delivered (-1: none); the trace is validated up to here
+	claimed  map[string]bool
 	restarts int // restarts done so far
 	walDir   string
 	waitTxs  bool
@@ -480,9 +480,9 @@ type netCfg struct {
 	reorderPct int
 	earlyPct   int // probability (in 1/1000) of firing a timer while messages are deliverable
 	byzPct     int
-	restarts   int // at most this many restarts of correct nodes in the adversarial phase (> 0: every node is gated)
-	restartPct int // probability (in 1/1000) per scheduler step
-	waitTxs    bool // default configuration: CreateEmptyBlocksInterval > 0
+	restarts   int                // at most this many restarts of correct nodes in the adversarial phase (> 0: every node is gated)
+	restartPct int                // probability (in 1/1000) per scheduler step
+	waitTxs    bool               // default configuration: CreateEmptyBlocksInterval > 0
 	plan       map[uint64][]int64 // validator-set changes (World.Plan)
 }
 
@@ -918,12 +918,12 @@ var netConfigs = map[string]netCfg{
 		restarts: 6, restartPct: 5,
 		plan: map[uint64][]int64{1: {3, 2, 2, 1, 0}, 2: {2, 2, 2, 1, 0}, 3: {2, 2, 2, 1, 3}, 5: {3, 2, 2, 1, 1}}},
 	// the default configuration (WaitForTxs with CreateEmptyBlocksInterval): round 1 waits for the NewRound timeout
-	"4eq-wait":   {powers: []int64{1, 1, 1, 1}, byz: []int{4}, maxH: 4, maxSteps: 2500, dropPct: 8, reorderPct: 35, earlyPct: 25, byzPct: 6, waitTxs: true},
+	"4eq-wait":        {powers: []int64{1, 1, 1, 1}, byz: []int{4}, maxH: 4, maxSteps: 2500, dropPct: 8, reorderPct: 35, earlyPct: 25, byzPct: 6, waitTxs: true},
 	"4w-wait-restart": {powers: []int64{3, 2, 2, 2}, byz: []int{3}, maxH: 5, maxSteps: 3000, dropPct: 6, reorderPct: 30, earlyPct: 20, byzPct: 5, restarts: 6, restartPct: 6, waitTxs: true},
 	// restarts of correct nodes between handler calls (real receive routine, file WAL, catchupReplay)
-	"4eq-restart":  {powers: []int64{1, 1, 1, 1}, byz: []int{4}, maxH: 5, maxSteps: 3000, dropPct: 8, reorderPct: 35, earlyPct: 25, byzPct: 5, restarts: 6, restartPct: 6},
-	"4w-restart":   {powers: []int64{3, 2, 2, 2}, byz: nil, maxH: 6, maxSteps: 3000, dropPct: 5, reorderPct: 30, earlyPct: 15, byzPct: 0, restarts: 8, restartPct: 8},
-	"5w-restart":   {powers: []int64{3, 2, 2, 1, 1}, byz: []int{2}, maxH: 4, maxSteps: 3000, dropPct: 8, reorderPct: 35, earlyPct: 25, byzPct: 5, restarts: 6, restartPct: 6},
+	"4eq-restart": {powers: []int64{1, 1, 1, 1}, byz: []int{4}, maxH: 5, maxSteps: 3000, dropPct: 8, reorderPct: 35, earlyPct: 25, byzPct: 5, restarts: 6, restartPct: 6},
+	"4w-restart":  {powers: []int64{3, 2, 2, 2}, byz: nil, maxH: 6, maxSteps: 3000, dropPct: 5, reorderPct: 30, earlyPct: 15, byzPct: 0, restarts: 8, restartPct: 8},
+	"5w-restart":  {powers: []int64{3, 2, 2, 1, 1}, byz: []int{2}, maxH: 4, maxSteps: 3000, dropPct: 8, reorderPct: 35, earlyPct: 25, byzPct: 5, restarts: 6, restartPct: 6},
 }
 
 // TestNetRecord runs NET_RUNS seeded adversarial runs of configuration NET_CFG, each followed by a
